@@ -77,6 +77,8 @@ type entry struct {
 	data []byte
 	kind string // message family (tag)
 	desc string // human-readable summary for replays
+	// service names / ids this entry registers (only used to tell the case-folding mechanism apart)
+	svcNames []string
 }
 
 func enc(t structs.MessageType, req any) []byte {
@@ -233,7 +235,11 @@ func (g *gen) register() entry {
 	if req.Check != nil {
 		d += fmt.Sprintf(" chk=%s/%s svcid=%q", req.Check.CheckID, req.Check.Status, req.Check.ServiceID)
 	}
-	return entry{data: enc(structs.RegisterRequestType, &req), kind: "register", desc: d}
+	e := entry{data: enc(structs.RegisterRequestType, &req), kind: "register", desc: d}
+	if req.Service != nil {
+		e.svcNames = []string{req.Service.Service, req.Service.ID, req.Service.Proxy.DestinationServiceName}
+	}
+	return e
 }
 
 func (g *gen) deregister() entry {
@@ -389,7 +395,13 @@ func (g *gen) txn() entry {
 		}
 	}
 	req := structs.TxnRequest{Datacenter: "dc1", Ops: ops}
-	return entry{data: enc(structs.TxnRequestType, &req), kind: "txn", desc: d}
+	e := entry{data: enc(structs.TxnRequestType, &req), kind: "txn", desc: d}
+	for _, op := range ops {
+		if op.Service != nil {
+			e.svcNames = append(e.svcNames, op.Service.Service.Service, op.Service.Service.ID, op.Service.Service.Proxy.DestinationServiceName)
+		}
+	}
+	return e
 }
 
 func (g *gen) preparedQuery() entry {
